@@ -685,7 +685,7 @@ def main():
             sig = "miri-leak"
         else:
             sig = first_in_repo_frame(text)
-            first = next((l for l in text.splitlines() if "ERROR:" in l or "Undefined Behavior" in l or "SUMMARY" in l or "panicked" in l or "FATAL" in l or "aborting" in l), "no message")
+            first = next((l for l in text.splitlines() if "ERROR:" in l or "Undefined Behavior" in l or "SUMMARY" in l or "panicked" in l or "FATAL" in l or "aborting" in l or "malloc(" in l or "free(" in l or "corrupt" in l or "double free" in l or "stack smashing" in l), "no message")
             first = f"{first} (exit status {r['rc']})"
             what = f"{kind} in flavour {fl} ({r['sh']['args'][0]}): {first.strip()[:300]} [first in-repo frame {sig}]"
         sanitizer_reports.setdefault(fl, 0)
